@@ -171,3 +171,98 @@ func ruleTypographerByteSet(w *World, r *Report) {
 	}
 	r.Expect("typographer inline parsers", n, 1)
 }
+
+// ruleFootnoteNeedsCaret (C11-F): the footnote parsers produce a node only behind a '^' in the peeked line.
+func ruleFootnoteNeedsCaret(w *World, r *Report) {
+	r.Rule("C11-F", "In the footnote extension's block parser Open and inline parser Parse, every return of a node is dominated by the true edge of a comparison of a byte of the peeked line with '^' (the line the reader handed out, not a normalised or trimmed copy of the label). A definition or reference recognised after normalising the bracket content accepts '[ ^a]:' — a document without the two bytes '[^' — and swallows what was a link reference definition or plain text.")
+	n := 0
+	for _, iface := range [][2]string{{"BlockParser", "Open"}, {"InlineParser", "Parse"}} {
+		for _, t := range w.Implementers(w.Iface("parser", iface[0])) {
+			if !strings.Contains(strings.ToLower(t.Obj().Name()), "footnote") {
+				continue
+			}
+			fn := w.MethodOf(t, iface[1])
+			if fn == nil || fn.Blocks == nil {
+				continue
+			}
+			var line ssa.Value
+			for _, b := range fn.Blocks {
+				for _, ins := range b.Instrs {
+					if ex, ok := ins.(*ssa.Extract); ok && ex.Index == 0 && line == nil {
+						if c, ok := ex.Tuple.(*ssa.Call); ok && c.Common().IsInvoke() && c.Common().Method.Name() == "PeekLine" {
+							line = ex
+						}
+					}
+				}
+			}
+			key := typeShort(t) + "." + iface[1] + ": a node only behind '^' in the line"
+			if line == nil {
+				r.Unknown(key, w.FnPos(fn), "the peeked line was not found")
+				continue
+			}
+			n++
+			isCaretTest := func(v ssa.Value, truth bool) bool {
+				bo, ok := v.(*ssa.BinOp)
+				if !ok {
+					return false
+				}
+				for _, pr := range [][2]ssa.Value{{bo.X, bo.Y}, {bo.Y, bo.X}} {
+					c, isC := constInt(pr[1])
+					if !isC || c != '^' {
+						continue
+					}
+					ld, ok := stripConv(pr[0]).(*ssa.UnOp)
+					if !ok {
+						continue
+					}
+					ia, ok := ld.X.(*ssa.IndexAddr)
+					if !ok || ia.X != line {
+						continue
+					}
+					if (bo.Op.String() == "==" && truth) || (bo.Op.String() == "!=" && !truth) {
+						return true
+					}
+				}
+				return false
+			}
+			bad := ""
+			nRet := 0
+			for _, b := range fn.Blocks {
+				ret, ok := b.Instrs[len(b.Instrs)-1].(*ssa.Return)
+				if !ok || len(ret.Results) == 0 {
+					continue
+				}
+				nonNil := false
+				for _, leaf := range phiLeaves(ret.Results[0]) {
+					if !isNilConst(stripMakeIface(leaf)) && !isNilConst(leaf) {
+						nonNil = true
+					}
+				}
+				if !nonNil {
+					continue
+				}
+				nRet++
+				guarded := false
+				for _, cf := range dominatingConds(b) {
+					for _, a := range condAtoms(cf.If.Cond, cf.Truth) {
+						if isCaretTest(a.V, a.Truth) {
+							guarded = true
+						}
+					}
+				}
+				if !guarded {
+					bad = fmt.Sprintf("the return of a node at %s is not dominated by a test of a byte of the peeked line against '^'", w.InstrPos(ret))
+				}
+			}
+			switch {
+			case bad != "":
+				r.Bad(key, w.FnPos(fn), bad)
+			case nRet == 0:
+				r.Unknown(key, w.FnPos(fn), "no return of a node found")
+			default:
+				r.OK(key, w.FnPos(fn), fmt.Sprintf("%d return(s) of a node, each behind line[…] == '^'", nRet))
+			}
+		}
+	}
+	r.Expect("footnote parsers", n, 2)
+}
